@@ -314,16 +314,28 @@ def gen_malformed(rng, idx):
             Y, Fb = [[] for _ in range(T)], 0
     elif why == 'mixed-dtype-negative':
         pairs = [('int8', 'uint8'), ('int16', 'uint16'), ('int8', 'uint16'), ('int32', 'uint8'),
-                 ('int64', 'uint64'), ('int16', 'uint8'), ('int8', 'int16')]
+                 ('int64', 'uint64'), ('int16', 'uint8'), ('int8', 'int16'), ('int32', 'uint32'),
+                 ('int16', 'uint32'), ('int8', 'uint64')]
         dta, dtb = pairs[int(rng.integers(0, len(pairs)))]
         X[t][fa] = -int(rng.integers(1, 4))
-        # a declared range so large that the wrapped id would fit: it must still be rejected
-        case['n_x'] = int(rng.choice([na, 256, 70000])) if np.dtype(dtb).itemsize <= 2 else na
-        if rng.random() < 0.3:          # the negative id on the other side
+        # a cast of the negative id to the unsigned / wider type would wrap to 2**bits - k: declare a range so
+        # large that the wrapped id fits (when such a table is small enough) - it must still be rejected
+        wide = max(np.dtype(dta).itemsize, np.dtype(dtb).itemsize)
+        big = 2 ** (8 * wide) if wide <= 2 else None
+        side_x = rng.random() < 0.7
+        if not side_x:              # the negative id on the second side
             X[t][fa] = 0
             dta, dtb = dtb, dta
-            Y[t][fb] = -1
-            case['n_x'], case['n_y'] = na, (int(rng.choice([nb, 256])) if np.dtype(dta).itemsize <= 1 else nb)
+            Y[t][fb] = -int(rng.integers(1, 4))
+        if big is not None and rng.random() < 0.8:
+            if side_x:
+                case['n_x'] = big
+                case['n_y'] = min(nb, 2) if big > 256 else nb
+                Y = [[min(v, case['n_y'] - 1) for v in r] for r in Y]
+            else:
+                case['n_y'] = big
+                case['n_x'] = min(na, 2) if big > 256 else na
+                X = [[min(v, case['n_x'] - 1) for v in r] for r in X]
     elif why == 'n-overflow':
         case['n_x'] = int(rng.choice([2 ** 31, 2 ** 40, -2 ** 31 - 1]))
     elif why == 'negative-self':
@@ -344,6 +356,77 @@ def gen_malformed(rng, idx):
     return case
 
 
+def vec(vals, dtype, layout):
+    a = np.array(vals, dtype=dtype) if len(vals) else np.zeros(0, dtype=dtype)
+    if layout == 'strided':
+        base = np.full(3 * len(vals) + 2, np.iinfo(np.dtype(dtype)).max, dtype=dtype)
+        base[1:1 + 3 * len(vals):3] = a
+        return base[1:1 + 3 * len(vals):3]
+    if layout == 'reversed':
+        return np.ascontiguousarray(a[::-1])[::-1]
+    return a
+
+
+def call_b1d(c):
+    """libinfo.bincount2d (1-D kernel); runs in the child"""
+    from enspara.info_theory import libinfo
+    try:
+        H = libinfo.bincount2d(vec(c['a'], c['dtype'], c['layout']), vec(c['b'], c['dtype'], c['layout']),
+                               c['n_a'], c['n_b'])
+    except BaseException as e:  # noqa
+        return {'error': ERR_KIND.get(type(e).__name__, type(e).__name__)}
+    return {'ok': H.tolist(), 'dtype': str(H.dtype), 'shape': list(H.shape), 'total': int(H.sum())}
+
+
+def gen_b1d(rng, idx):
+    T = int(rng.choice([0, 1, 2, 5, 12, 30]))
+    na, nb = int(rng.integers(1, 6)), int(rng.integers(1, 6))
+    a = [int(v) for v in rng.integers(0, na, size=T)]
+    b = [int(v) for v in rng.integers(0, nb, size=T)]
+    c = {'kind': 'b1d', 'a': a, 'b': b, 'n_a': na, 'n_b': nb, 'dtype': DTYPES[idx % 8],
+         'layout': str(rng.choice(['C', 'strided', 'reversed'])), 'why': None}
+    if idx % 2 == 1:
+        # (a negative id currently kills the child: one child restart each, so only a few of them)
+        why = 'negative' if (idx // 2) % 12 == 0 else ['too-large', 'length'][(idx // 2) % 2]
+        if T == 0:
+            T = 3
+            c['a'] = [int(v) for v in rng.integers(0, na, size=T)]
+            c['b'] = [int(v) for v in rng.integers(0, nb, size=T)]
+        t = int(rng.integers(0, T))
+        side = 'a' if rng.random() < 0.5 else 'b'
+        if why == 'negative':
+            c['dtype'] = str(rng.choice(['int8', 'int16', 'int32', 'int64']))
+            c[side][t] = -int(rng.integers(1, 3))
+        elif why == 'too-large':
+            c[side][t] = (na if side == 'a' else nb) + int(rng.integers(0, 3))
+        else:
+            c[side] = c[side] + [0]
+        c['why'] = why
+    return c
+
+
+def check_b1d(ctx, c, got):
+    ctx.case(c, nontrivial=len(c['a']) > 0, tags=['bincount2d-1D', 'b1d-' + (c['why'] or 'valid'), 'dtype-x=' + c['dtype']])
+    if c['why']:
+        # malformed 1-D stream: must be rejected.  libinfo.bincount2d has no range guards (known finding)
+        key = 'bincount2d-unguarded' if c['why'] in ('negative', 'too-large') else None
+        if 'crash' in got:
+            ctx.violation('malformed 1-D stream (%s) crashed the process in libinfo.bincount2d (return code %s)'
+                          % (c['why'], got['crash']), c, key=key)
+        elif 'error' not in got:
+            ctx.violation('malformed 1-D stream (%s) was accepted by libinfo.bincount2d: %s counts for %d frames'
+                          % (c['why'], got.get('total'), len(c['a'])), c, key=key)
+        return
+    if 'crash' in got or 'error' in got:
+        ctx.violation('libinfo.bincount2d failed on a valid 1-D stream: %s' % _short(got), c)
+        return
+    ref = np.zeros((c['n_a'], c['n_b']), dtype=np.int64)
+    for i, j in zip(c['a'], c['b']):
+        ref[i, j] += 1
+    if got['shape'] != list(ref.shape) or got['ok'] != ref.tolist():
+        ctx.violation('libinfo.bincount2d table differs from the number of frames', c)
+
+
 # --------------------------------------------------------------------------------------
 # child process for calls that would write out of bounds if a guard were missing
 
@@ -357,11 +440,13 @@ for i, c in enumerate(cases):
     print('START %%d' %% i, flush=True)
     if c.get('kind') == 'sweep':
         r = {'sweep': c18.run_sweep(c)}
+    elif c.get('kind') == 'b1d':
+        r = c18.call_b1d(c)
     else:
         r = c18.call_jc(c)
         if 'ok' in r:
             jc = r['ok']
-            r = {'ok': jc.tolist() if jc.size <= 70000 else None, 'dtype': str(jc.dtype),
+            r = {'ok': jc.tolist() if jc.size <= 400000 else None, 'dtype': str(jc.dtype),
                  'shape': list(jc.shape), 'total': int(jc.sum(dtype=np.uint64))}
     print('RESULT %%d %%s' %% (i, json.dumps(r)), flush=True)
 ''' % os.path.dirname(HERE)
@@ -484,20 +569,19 @@ def mi_real(ctx, jc, replay):
     return v if ok else None
 
 
-def check_mi_laws(ctx, case, jc, tr, got2):
+def check_mi_laws(ctx, case, jc, tr, got2, model):
     """mutual_information on a real table: model terms and the laws, on the real output"""
     from enspara.info_theory import entropy
     mi = mi_real(ctx, jc, dict(case, stage='mi'))
     if mi is None:
         return
     Fa, Fb, na, nb = jc.shape
-    req = {'op': 'C18.mi', 'jc': jc.tolist(), 'n_a': na, 'n_b': nb}
-    model = ctx.driver([req])[0]
     ctx.tag('mi-table')
     if mi.shape != (Fa, Fb):
         ctx.violation('mutual_information shape %s != (%d, %d)' % (mi.shape, Fa, Fb), dict(case, stage='mi'))
         return
     self_mode = case.get('Y') is None
+    disagreed = False
     for x in range(Fa):
         for y in range(Fb):
             v = float(mi[x, y])
@@ -514,11 +598,11 @@ def check_mi_laws(ctx, case, jc, tr, got2):
             if v > min(hx, hy) + TOL:
                 ctx.violation('mutual information %r exceeds the smaller marginal entropy %r' % (v, min(hx, hy)), rc)
                 return
-            if 'ok' in model:
+            if 'ok' in model and not disagreed:
                 mv = eval_terms(model['ok'][x][y])
                 if not close(v, mv):
                     ctx.disagreement('Model.Info.mutualInformationTerms vs mutual_information: %r vs %r' % (mv, v), rc)
-                    return
+                    disagreed = True      # keep evaluating the property's predicate on the real output
     if 'ok' not in model:
         ctx.disagreement('Model.Info.mutualInformationTerms failed: %s' % _short(model), dict(case, stage='mi'))
     if self_mode:
@@ -644,6 +728,7 @@ def check_mi_matrix(ctx, case, model):
     Fa, Fb = raw.shape
     nxv = n_x if isinstance(n_x, list) else [n_x] * Fa
     nyv = n_y if isinstance(n_y, list) else [n_y] * Fb
+    disagreed = False
     for x in range(Fa):
         for y in range(Fb):
             ref = mi_oracle(ref_jc[x, y])
@@ -657,12 +742,12 @@ def check_mi_matrix(ctx, case, model):
                 ctx.violation('normalised mi_matrix entry (%d,%d) = %r is not mi / log(min(n_x[i], n_y[j])) = %r'
                               % (x, y, float(nrm[x, y]), want), rc)
                 return
-            if 'ok' in model:
+            if 'ok' in model and not disagreed:
                 mv = eval_terms(model['ok']['terms'][x][y])
                 if not close(mv, float(raw[x, y])):
                     ctx.disagreement('Model.Info.miMatrixCounts terms vs mi_matrix: %r vs %r'
                                      % (mv, float(raw[x, y])), rc)
-                    return
+                    disagreed = True
     if 'ok' not in model or model['ok']['jc'] != pooled_jc.tolist():
         ctx.disagreement('Model.Info.miMatrixCounts pooled table vs joint_counts of the concatenation',
                          dict(case, model=_short(model)))
@@ -715,6 +800,7 @@ def check_wmi(ctx, case, model):
         return
     if 'ok' not in model:
         ctx.disagreement('Model.Info.weightedMi failed: %s' % _short(model), case)
+    disagreed = False
     for f in range(F):
         for g in range(F):
             v = float(raw[f, g])
@@ -725,11 +811,11 @@ def check_wmi(ctx, case, model):
             if not close(v, float(raw[g, f])):
                 ctx.violation('weighted mutual information is not symmetric', rc)
                 return
-            if 'ok' in model:
+            if 'ok' in model and not disagreed:
                 mv = max(0.0, eval_terms(model['ok']['terms'][f][g]))
                 if not close(mv, v):
                     ctx.disagreement('Model.Info.weightedMi terms vs weighted_mi: %r vs %r' % (mv, v), rc)
-                    return
+                    disagreed = True
             if nrm is not None:
                 want = v / math.log(min(states[f], states[g]))
                 if not close(float(nrm[f, g]), want):
@@ -772,6 +858,8 @@ def gen_ccn_case(rng, idx):
             case['n_y'] = ny[:-1] if c > 1 else ny + [2]
     elif u < 0.5:
         case['bad'] = 'n<2'
+        case['nx_dtype'] = case['nx_dtype'] if case['nx_dtype'] in ('int8', 'int16', 'int32', 'int64') else None
+        case['ny_dtype'] = case['ny_dtype'] if case['ny_dtype'] in ('int8', 'int16', 'int32', 'int64') else None
         if rng.random() < 0.5:
             case['n_x'] = [int(rng.choice([1, 0, -1]))] + nx[1:]
         else:
@@ -1090,10 +1178,12 @@ def jc_pipeline(ctx, cases, n_mi, n_sched):
     todo = [(c, jc) for c, jc in tables if c.get('entry') != 'kernel'][:n_mi]
     trs = [make_transform(ctx.rng, c, jc.shape) for c, jc in todo]
     got2 = run_in_child([t['case'] for t in trs if t is not None])
+    models = ctx.driver([{'op': 'C18.mi', 'jc': jc.tolist(), 'n_a': jc.shape[2], 'n_b': jc.shape[3]}
+                         for _, jc in todo])
     it = iter(got2)
-    for (c, jc), t in zip(todo, trs):
+    for (c, jc), t, m in zip(todo, trs, models):
         g2 = next(it) if t is not None else None
-        check_mi_laws(ctx, c, jc, t, g2)
+        check_mi_laws(ctx, c, jc, t, g2, m)
         crashed = crashed or (g2 is not None and 'crash' in g2)
     sched_check(ctx, tables[:n_sched])
     return not crashed, tables
@@ -1110,12 +1200,12 @@ def run(ctx):
         times[k] = round(time.time() - t0, 2)
         t0 = time.time()
     # 1. valid streams: table == brute force == model; then the MI laws on the real table
-    cases = [gen_jc_case(rng, i) for i in range(ctx.n(260, 2500))]
-    cases += [gen_wide_case(rng) for _ in range(ctx.n(24, 200))]
-    ok, _ = jc_pipeline(ctx, cases, ctx.n(110, 900), ctx.n(80, 500))
+    cases = [gen_jc_case(rng, i) for i in range(ctx.n(260, 8000))]
+    cases += [gen_wide_case(rng) for _ in range(ctx.n(24, 400))]
+    ok, _ = jc_pipeline(ctx, cases, ctx.n(110, 3000), ctx.n(80, 2000))
     lap('jc+mi-laws+sched')
     # 2. malformed streams (child process)
-    bad = [gen_malformed(rng, i) for i in range(ctx.n(120, 720))]
+    bad = [gen_malformed(rng, i) for i in range(ctx.n(120, 2400))]
     mresp = ctx.driver([jc_request(c) for c in bad])
     got = run_in_child(bad)
     for c, g, m in zip(bad, got, mresp):
@@ -1123,41 +1213,46 @@ def run(ctx):
         ok = ok and 'crash' not in g
     lap('malformed')
     # 3. thread sweep on larger tables (child process)
-    sw = [gen_sweep(rng, k) for k in range(ctx.n(16, 64))]
+    sw = [gen_sweep(rng, k) for k in range(ctx.n(16, 200))]
     for d, g in zip(sw, run_in_child(sw)):
         check_sweep(ctx, d, g)
         ok = ok and 'crash' not in g
     lap('sweep')
+    # 3b. the 1-D kernel libinfo.bincount2d (child process)
+    b1 = [gen_b1d(rng, i) for i in range(ctx.n(48, 1200))]
+    for c, g in zip(b1, run_in_child(b1)):
+        check_b1d(ctx, c, g)
+    lap('bincount2d-1D')
     if not ok:
         # the compiled kernel accesses memory out of bounds: do not call it in this process
         ctx.note('stopped_after_crash', True)
         ctx.note('section_seconds', times)
         return
     # 4. mi_matrix: pooled counts
-    mm = [gen_mi_matrix_case(rng) for _ in range(ctx.n(60, 400))]
+    mm = [gen_mi_matrix_case(rng) for _ in range(ctx.n(60, 1500))]
     resp = ctx.driver([mi_matrix_request(c) for c in mm])
     for c, r in zip(mm, resp):
         check_mi_matrix(ctx, c, r)
     lap('mi_matrix')
     # 5. weighted_mi
-    wm = [gen_wmi_case(rng) for _ in range(ctx.n(100, 600))]
+    wm = [gen_wmi_case(rng) for _ in range(ctx.n(100, 2000))]
     resp = ctx.driver([wmi_request(c) for c in wm])
     for c, r in zip(wm, resp):
         check_wmi(ctx, c, r)
     lap('wmi')
     # 6. channel capacity normalisation
-    cc = [gen_ccn_case(rng, i) for i in range(ctx.n(150, 800))]
+    cc = [gen_ccn_case(rng, i) for i in range(ctx.n(150, 3000))]
     resp = ctx.driver([ccn_request(c) for c in cc])
     for c, r in zip(cc, resp):
         check_ccn(ctx, c, r)
     lap('ccn')
     # 7. relative entropy, Shannon entropy
-    kl = [gen_kl_case(rng) for _ in range(ctx.n(250, 1500))]
+    kl = [gen_kl_case(rng) for _ in range(ctx.n(250, 6000))]
     resp = ctx.driver([kl_request(c) for c in kl])
     for c, r in zip(kl, resp):
         check_kl(ctx, c, r)
     check_kl_rows(ctx, kl)
-    en = [gen_entropy_case(rng) for _ in range(ctx.n(120, 800))]
+    en = [gen_entropy_case(rng) for _ in range(ctx.n(120, 3000))]
     resp = ctx.driver([entropy_request(c) for c in en])
     for c, r in zip(en, resp):
         check_entropy(ctx, c, r)
@@ -1201,6 +1296,8 @@ def replay(ctx, data):
         check_malformed(ctx, base, g, m)
     elif kind == 'sweep':
         check_sweep(ctx, base, run_in_child([base])[0])
+    elif kind == 'b1d':
+        check_b1d(ctx, base, run_in_child([base])[0])
     elif kind == 'mi_matrix':
         check_mi_matrix(ctx, base, ctx.driver([mi_matrix_request(base)])[0])
     elif kind == 'wmi':
